@@ -258,7 +258,7 @@ def case_collector(seed, out, spec, wd):
     trig = line_trigger('tp-%d' % r.randrange(999), case.base, case.line, args, watches)
     hung, _ = case.run([trig], lambda ev, frame, stack, new: None)
     replay = replay_spec(spec, seed)
-    witness = {'locals': [type(v).__name__ for v in values], 'kinds': sorted(gg.kinds), 'args': args,
+    witness = {'locals': [snapcheck.type_name(v) for v in values], 'kinds': sorted(gg.kinds), 'args': args,
                'watches': watches}
     if hung:
         out.inconc('C08 host hung')
